@@ -20,7 +20,7 @@ CHECKS = {
    "tokio::sync::Mutex and the hand-written executor are trusted; transport queues are unbounded; preemption between two non-awaiting statements inside one section is not explored.", "DESIGN.md §2 E1"),
  "C18": ("E1", "model_checking",
    "stateless model checking (deviation-bounded DFS over schedules including future-drop actions)",
-   "As C05, plus a drop action for every designated reply future at every real suspension point (never polled, waiting for the receive lock, reading from the transport) and for every non-empty victim subset; survivors must complete with their own reply and a follow-up request must succeed. The same scenario is then repeated on the real TLS, SSH and JunosLocal transports: a reader abandoned after every sampled prefix of the reply stream, the other request and a follow-up must still complete.",
+   "As C05, plus a drop action for every designated reply future at every real suspension point (never polled, waiting for the receive lock, reading from the transport) and for every non-empty victim subset; survivors must complete with their own reply and a follow-up request must succeed. The same scenario is then repeated on the real TLS, SSH and JunosLocal transports: a reader abandoned after every sampled prefix of the reply stream, the other request and a follow-up must still complete. The reply future of close(), which owns the session, is dropped unpolled or as the reader with 1-3 other requests outstanding (every subset of waiters polled before, every arrival order; and on the three real transports): the other requests must still get their own replies.",
    "Same trusted base as C05; replies of 70 KB are included; a panic inside the session layer counts as the verdict of that execution (the layer is generic over Transport and must not need a runtime); a future is only dropped at a real await, never at an artificial yield; on the real transports the drop point is a byte-stream prefix, not a scheduler choice.", "DESIGN.md §2 E1"),
  "C01": ("E2", "model_checking",
    "explicit-state model checking (BFS over reachable configurations; transitions executed by the real code)",
@@ -29,7 +29,7 @@ CHECKS = {
  "C02": ("E2", "model_checking",
    "explicit-state model checking (BFS; invariant checked after every single payload and every prefix of every order)",
    "Same exploration as C01; after each single update applied on its own to the fetched state, and after every prefix of every permutation of the update sequence, every touched policy must have only family-restricted accepting terms with explicit route-filters inside the evaluated set and end in reject, and the payload may address nothing outside configuration/policy-options/policy-statement.",
-   "Same trusted base as C01; a second sweep starts from 19 installed states the agent did not produce (foreign route-filter match types, foreign accept-all terms, terms that lost family / filters / action, no trailing reject, ...) and checks every update sent from them the same way; end to end the state after every single load is judged too (a policy of up to 2100 ranges replaced completely); an end-to-end slice runs the real agent binary body against the fake Junos server for an emptied family and an emptied policy.", "DESIGN.md §2 E2"),
+   "Same trusted base as C01; a second sweep starts from 19 installed states the agent did not produce (foreign route-filter match types, foreign accept-all terms, terms that lost family / filters / action, no trailing reject, ...) and checks every update sent from them the same way; end to end the state after every single load is judged too (a policy of up to 2100 ranges replaced completely); an end-to-end slice runs the real agent binary body against the fake Junos server for an emptied family and an emptied policy, and with open-configuration refused in five ways (nothing may be loaded or committed then).", "DESIGN.md §2 E2"),
  "C03": ("E2", "fault_enumeration",
    "exhaustive enumeration of failed-evaluation subsets over the BFS state space + malformed-annotation sweep",
    "In every reachable configuration every subset of candidates is marked 'evaluation failed': no payload may name them and their installed form must be unchanged; deletes may only name installed, unmanaged policies. Malformed annotations are driven through the real candidate reader and the real plan.",
@@ -40,7 +40,7 @@ CHECKS = {
    "The rpsl crate's parser defines 'parseable expression'.", "DESIGN.md §2 E2 (C16 sweep)"),
  "C08": ("E3", "exploration",
    "bounded-exhaustive enumeration of the reply grammar through the real session (all child sequences up to a length bound)",
-   "Every rpc-reply whose children are a sequence (length <= 4 quick / 5 thorough) over {positive indication, rpc-error of severity error / warning (plain and with every optional leaf), comment, foreign element, the other reply types' indication}, plus framed messages holding two rpc-reply elements, for each of the four reply types (ok, data, bare Junos, load-configuration with every placement inside/outside load-configuration-results and every load-error-count) is delivered to a real outstanding request; Ok requires the positive indication and no error-severity rpc-error anywhere, RpcError must list exactly the document's rpc-errors in order.",
+   "Every rpc-reply whose children are a sequence (length <= 4 quick / 5 thorough) over {positive indication, rpc-error of severity error / warning (plain, with every optional leaf, and identical leaf for leaf when repeated), comment, foreign element, the other reply types' indication}, plus framed messages holding two rpc-reply elements, for each of the four reply types (ok, data, bare Junos, load-configuration with every placement inside/outside load-configuration-results and every load-error-count) is delivered to a real outstanding request; Ok requires the positive indication and no error-severity rpc-error anywhere, RpcError must list exactly the document's rpc-errors in order.",
    "Documents are drawn from the stated grammar, not all XML; quick-xml is the parser under test as used by the library.", "DESIGN.md §2 E3 C08"),
  "C09": ("E3", "exploration",
    "exhaustive capability-set x request-recipe matrix against an RFC 6241 table",
@@ -56,7 +56,7 @@ CHECKS = {
    "Characters XML 1.0 cannot carry and fragments that contain the delimiter themselves are outside the alphabet.", "DESIGN.md §2 E3 C10"),
  "C13": ("E3", "exploration",
    "bounded-exhaustive rewrite neighbourhoods (all single and pairwise information-preserving rewrites at every position) with a differential oracle",
-   "21 seed messages (hellos, every reply type, rpc-errors with all leaves, get-config data for both agent readers; accepted and rejected ones) x every applicable rewrite (namespace prefix vs default, inter-element whitespace, whitespace around token-valued text, comments, another prefix for / hoisted declaration of a namespace bound with xmlns:p, attribute order, quote style, XML declaration, empty-element form) at every position, singly and in pairs (thorough: also triples of three different rewrite kinds); each rewritten message goes through the real session (and the agent's real fetch path) and must give the same acceptance and the same Debug value as its seed.",
+   "21 seed messages (hellos, every reply type, rpc-errors with all leaves, get-config data for both agent readers; accepted and rejected ones) x every applicable rewrite (namespace prefix vs default, inter-element whitespace, whitespace around token-valued text (also with CR LF line ends and tabs), comments, another prefix for / hoisted declaration of a namespace bound with xmlns:p, attribute order, quote style, XML declaration, empty-element form) at every position, singly and in pairs (thorough: also triples of three different rewrite kinds); each rewritten message goes through the real session (and the agent's real fetch path) and must give the same acceptance and the same Debug value as its seed.",
    "The value of <get> is the raw <data> content by design, so only acceptance is compared there.", "DESIGN.md §2 E3 C13"),
  "C14": ("E3", "exploration",
    "exhaustive one-edit mutation neighbourhoods (every offset / element / attribute / numeric field) of seed messages under a per-case watchdog",
@@ -72,7 +72,7 @@ CHECKS = {
    "Recursive set expansion is done by the (fake) IRRd as the client requests; the oracle decides membership per prefix of a finite universe (two IPv4 and two IPv6 trees) without using the ip crate's set algebra.", "DESIGN.md §2 E5 C11"),
  "C17": ("E5", "model_checking",
    "exhaustive operation sequences (all histories up to a length bound x every single-fault injection) against a fresh-connection reference",
-   "All sequences of up to 3 (thorough 4) expressions over an alphabet of 8 on one evaluator / IRR connection, without faults and with one injected error answer (D, E, F) at every query index of every member; every member's result must equal the result of the same expression, with the same fault, on a fresh connection; the evaluator must remain usable after failures. Repetition histories (X evaluated k times, then every Y; X also over expressions that fail after other resolvers ran; with an error answer to every occurrence of each query) reach state that accumulates or is reset only on success.",
+   "All sequences of up to 3 (thorough 4) expressions over an alphabet of 8 on one evaluator / IRR connection, without faults and with one injected error answer (D, E, F) at every query index of every member; every member's result must equal the result of the same expression, with the same fault, on a fresh connection; the evaluator must remain usable after failures. Repetition histories (X evaluated k times, then every Y; X also over expressions that fail after other resolvers ran; with an error answer to every occurrence of each query) reach state that accumulates or is reset only on success; the agent itself runs once over 70 policies that all name filter-sets.",
    "Connection loss mid-stream is not injected (irrc spins on EOF: dependency behaviour recorded in DESIGN).", "DESIGN.md §2 E5 C17"),
  "C04": ("E6", "fault_enumeration",
    "exhaustive fault enumeration: every fault kind at every position of the agent's request sequence, real agent end to end",
@@ -80,7 +80,7 @@ CHECKS = {
    "The fake Junos implements the Junos XML protocol as documented; the agent is built inside the harness workspace from /repo's crates (same main body as the shipped binary).", "DESIGN.md §2 E6 C04"),
  "C15": ("E6", "fault_enumeration",
    "enumeration of unevaluable-policy kinds x policy sets x observed evaluation orders, real agent end to end",
-   "Policy sets of 2-3 managed policies containing 1-2 members that are valid RPSL but unevaluable (unknown as-set, IRR error answers, PeerAS, AS-path regular expressions, attribute matches), run through the real agent against fake Junos + fake IRRd and repeated until every evaluation order of the evaluable members was observed; the run must exit 0 with one commit, every other policy installed with exactly its oracle set and nothing installed for the unevaluable one. The evaluation stage is also checked in isolation.",
+   "Policy sets of 1-4 managed policies containing 1-3 members (up to all of them) that are valid RPSL but unevaluable (unknown as-set, IRR error answers, PeerAS, AS-path regular expressions, attribute matches), run through the real agent against fake Junos + fake IRRd and repeated until every evaluation order of the evaluable members was observed; the run must exit 0 with one commit, every other policy installed with exactly its oracle set and nothing installed for the unevaluable one. The evaluation stage is also checked in isolation.",
    "Evaluation order (HashMap iteration) is observed from the IRR query log, not forced; the repeat cap is reported.", "DESIGN.md §2 E6 C15"),
  "C06": ("E4", "exploration",
    "exhaustive enumeration of stream segmentations (cut positions, cut subsets of delimiter zones, groupings) against the real transports",
@@ -92,7 +92,7 @@ CHECKS = {
    "Real-time watchdog with three orders of magnitude of slack over loopback latency.", "DESIGN.md §2 E4 C07"),
  "C20": ("E4", "exploration",
    "exhaustive configuration matrix (transport x level x subscriber wiring x filter x outcome x secret) with an encoding search over the complete captured log",
-   "The client runs in a child process with a real fmt subscriber wired as the crate's examples do (try_init, which installs the log bridge), as a plain subscriber, and with EnvFilter directives as the agent does, for SSH passwords and TLS RSA / EC client keys, (including values with surrounding blanks / a trailing newline), on success, authentication failure, a keyboard-interactive-only server and a refused connection; the agent also with PEM bundles and 11 damaged key files; the real agent runs with the remote target (keys by path, PEM bundles, wrong PEM kinds, RUST_LOG directives). Every byte the child prints is searched for the secret in clear, Debug-escaped, hex, base64 and byte-list encodings (for keys: every window of the secret part of the DER).",
+   "The client runs in a child process with a real fmt subscriber wired as the crate's examples do (try_init, which installs the log bridge), as a plain subscriber, and with EnvFilter directives as the agent does, for SSH passwords and TLS RSA / EC client keys, (including values with surrounding blanks / a trailing newline), on success, authentication failure, a keyboard-interactive-only server and a refused connection; the agent also with PEM bundles, 14 damaged key files (incl. key material under the wrong PEM label) and every secret-valued option its own --help lists (well-formed and damaged values); the real agent runs with the remote target (keys by path, PEM bundles, wrong PEM kinds, RUST_LOG directives). Every byte the child prints is searched for the secret in clear, Debug-escaped, hex, base64 and byte-list encodings (for keys: every window of the secret part of the DER).",
    "Only the listed encodings are searched; the fake peers live in the parent process so their logging is not captured.", "DESIGN.md §2 E4 C20"),
 }
 
